@@ -16,6 +16,7 @@ type witness struct {
 	ddl   []string
 	query string
 	want  [][]string
+	seq   bool // the statement has a total ORDER BY: compare as a sequence
 }
 
 const witnessSalts = 40
@@ -27,56 +28,79 @@ var witnesses = []witness{
 			"CREATE TABLE t2 (c0 INT NOT NULL, c1 DECIMAL(10,2) NOT NULL, c2 DECIMAL(10,2), c3 VARCHAR(8), PRIMARY KEY (c0,c1))",
 			"INSERT INTO t2 VALUES (-1,-0.25,1.75,'A')"},
 		"SELECT DISTINCT x1.c1 AS o0 FROM t2 x1 LEFT JOIN t1 x2 ON (x1.c1 = x2.c1) INNER JOIN t2 x3 ON (x3.c0 BETWEEN x1.c0 AND x2.c0)",
-		nil},
+		nil, false},
 	{idReorder,
 		[]string{"CREATE TABLE t0 (c0 INT, c1 INT, c2 INT, c3 INT)",
 			"INSERT INTO t0 VALUES (NULL,NULL,NULL,NULL),(NULL,NULL,NULL,NULL),(NULL,NULL,NULL,NULL),(NULL,NULL,NULL,NULL),(NULL,NULL,NULL,NULL),(NULL,NULL,NULL,NULL),(NULL,NULL,0,NULL),(0,NULL,NULL,NULL)"},
 		"SELECT x1.c0 AS o0 FROM t0 x1 RIGHT JOIN t0 x2 ON (x1.c0 = x2.c0) INNER JOIN t0 x3 ON ((x2.c0 = x3.c0) AND (x1.c0 = x1.c1))",
-		nil},
+		nil, false},
 	{idReorder,
 		[]string{"CREATE TABLE t1 (c0 INT, c1 VARCHAR(8), c2 INT, KEY k0 (c0))",
 			"INSERT INTO t1 VALUES (NULL,NULL,NULL),(NULL,NULL,NULL),(NULL,'',NULL),(0,NULL,NULL),(NULL,'',NULL)"},
 		"SELECT COUNT(*) AS o0 FROM t1 x1 LEFT JOIN t1 x2 ON (x1.c0 = x2.c0) INNER JOIN t1 x3 ON ((x1.c0 = x3.c0) AND (NULL = NULL))",
-		[][]string{{"n:0"}}},
+		[][]string{{"n:0"}}, false},
 	{idRHFilter,
 		[]string{"CREATE TABLE t0 (c0 INT NOT NULL, c1 INT, c2 INT, c3 INT, PRIMARY KEY (c0), KEY k0 (c3))",
 			"INSERT INTO t0 VALUES (2,-2,NULL,-1),(1,NULL,NULL,NULL),(4,1,NULL,NULL),(-2,NULL,-3,-3),(-3,-2,NULL,NULL)",
 			"CREATE TABLE t1 (c0 INT NOT NULL, c1 DECIMAL(10,2), PRIMARY KEY (c0))",
 			"INSERT INTO t1 VALUES (1,NULL),(0,-0.75),(-2,1.75),(4,NULL)"},
 		"SELECT COUNT(*) AS o0 FROM t1 x1 INNER JOIN t0 x2 ON ((x2.c3 BETWEEN x1.c0 AND x1.c1) AND (x2.c0 IN (-1,0,-1)))",
-		[][]string{{"n:0"}}},
+		[][]string{{"n:0"}}, false},
 	{idRHFilter,
 		[]string{"CREATE TABLE t0 (c0 INT NOT NULL, c1 INT, c2 DECIMAL(10,2), PRIMARY KEY (c0), KEY k0 (c2))",
 			"INSERT INTO t0 VALUES (4,-2,1.25)",
 			"CREATE TABLE t1 (c0 INT NOT NULL, c1 DECIMAL(10,2), c2 VARCHAR(8), c3 VARCHAR(8), PRIMARY KEY (c0), KEY k0 (c1,c0))",
 			"INSERT INTO t1 VALUES (-2,NULL,NULL,''),(-3,1.75,'b','a'),(0,2.25,'',NULL),(1,2.50,'a',NULL)"},
 		"SELECT x1.c1 AS o0 FROM t1 x1 RIGHT JOIN t0 x2 ON (x2.c2 BETWEEN x1.c1 AND x1.c0) WHERE (x2.c0 IN (0,2,-2))",
-		nil},
+		nil, false},
 	{idRHFilter,
 		[]string{"CREATE TABLE t0 (c0 INT NOT NULL, c1 INT, c2 INT, c3 VARCHAR(8), PRIMARY KEY (c0), KEY k0 (c2), KEY k1 (c0))",
 			"INSERT INTO t0 VALUES (-3,NULL,NULL,''),(4,NULL,-1,NULL),(1,-3,2,'á')"},
 		"SELECT 1.50 AS o0, -1.25 AS o1 FROM t0 x1 INNER JOIN t0 x2 ON ((x2.c2 BETWEEN x1.c1 AND x1.c0) AND (x2.c0 IS NULL))",
-		nil},
+		nil, false},
 	{idRHType,
 		[]string{"CREATE TABLE t1 (c0 INT NOT NULL, c1 DECIMAL(10,2), c2 INT, PRIMARY KEY (c0))",
 			"INSERT INTO t1 VALUES (2,-1.00,NULL),(-2,NULL,-3),(0,-0.75,-2),(1,NULL,NULL),(-3,NULL,-3),(3,0.75,1),(-1,NULL,NULL)"},
 		"SELECT x1.c2 AS o0 FROM t1 x1 INNER JOIN t1 x2 ON ((x1.c1 < x2.c0) AND (x2.c0 < x1.c0))",
-		[][]string{{"N"}, {"N"}, {"n:1"}, {"n:1"}}},
+		[][]string{{"N"}, {"N"}, {"n:1"}, {"n:1"}}, false},
+	{idHashDec,
+		[]string{"CREATE TABLE t0 (c0 INT, c1 VARCHAR(8), c2 INT, KEY k0 (c1))",
+			"INSERT INTO t0 VALUES (NULL,NULL,NULL),(-3,NULL,NULL),(NULL,'a',1),(NULL,NULL,2),(2,'a',4)",
+			"CREATE TABLE t1 (c0 INT NOT NULL, c1 DECIMAL(10,2), c2 INT, PRIMARY KEY (c0), KEY k0 (c0))",
+			"INSERT INTO t1 VALUES (-1,1.50,NULL),(0,NULL,NULL),(2,0.25,NULL),(-2,NULL,NULL),(-3,-1.00,-2),(3,0.50,NULL)"},
+		"SELECT x3.c1 AS o0, x1.c1 AS o1, x2.c2 AS o3 FROM t0 x1 LEFT JOIN t0 x2 ON ((x1.c0 = x2.c0) AND (x2.c0 = 2.00)) INNER JOIN t1 x3 ON (x1.c0 = x3.c0)",
+		[][]string{{"n:-1", "N", "N"}, {"n:1/4", "s:a", "n:4"}}, false},
+	{idNestSort,
+		[]string{"CREATE TABLE t0 (c0 INT NOT NULL, c1 INT, c2 INT, PRIMARY KEY (c0), KEY k0 (c0), KEY k1 (c0))",
+			"INSERT INTO t0 VALUES (1,NULL,2)",
+			"CREATE TABLE t1 (c0 INT NOT NULL, c1 INT NOT NULL, c2 INT, PRIMARY KEY (c0,c1), KEY k0 (c1,c0), KEY k1 (c0))",
+			"INSERT INTO t1 VALUES (-2,-2,NULL),(-3,-2,NULL),(-2,1,NULL),(-2,2,-2),(-3,-3,NULL),(-1,-3,-2)"},
+		"SELECT x1.c2 AS o0 FROM t1 x1 INNER JOIN (SELECT * FROM t1 LIMIT 50) x2 ON ((x1.c1 <= x2.c0) AND (x2.c0 <= x1.c1)) CROSS JOIN t0 x3 ORDER BY o0 DESC",
+		[][]string{{"n:-2"}, {"n:-2"}, {"N"}, {"N"}, {"N"}, {"N"}, {"N"}, {"N"}, {"N"}, {"N"}}, true},
+	{idOuterSub,
+		[]string{"CREATE TABLE t0 (c0 INT NOT NULL, c1 INT, PRIMARY KEY (c0))",
+			"INSERT INTO t0 VALUES (0,NULL)",
+			"CREATE TABLE t1 (c0 INT NOT NULL, c1 VARCHAR(8) NOT NULL, c2 INT, PRIMARY KEY (c0,c1))",
+			"INSERT INTO t1 VALUES (1,'a',NULL),(3,'a',NULL)",
+			"CREATE TABLE t2 (c0 INT NOT NULL, c1 DECIMAL(10,2), c2 DECIMAL(10,2), c3 DECIMAL(10,2), PRIMARY KEY (c0), KEY k0 (c1,c0), KEY k1 (c0))",
+			"INSERT INTO t2 VALUES (-3,-1.00,0.75,NULL),(-1,-0.75,0.25,-0.50)"},
+		"SELECT x2.c0 AS o0, COUNT(DISTINCT x1.c2) AS o1 FROM t1 x1 LEFT JOIN t1 x2 ON ((x1.c2 = x2.c0) AND (-1.50 < -2)) CROSS JOIN t2 x3 WHERE (NOT EXISTS (SELECT y1.c0 FROM t0 y1 WHERE (y1.c0 = x1.c0))) GROUP BY x2.c0",
+		[][]string{{"N", "n:0"}}, false},
 	{idRound,
 		[]string{"CREATE TABLE t1 (c0 INT NOT NULL, c1 DECIMAL(10,2), c2 INT, PRIMARY KEY (c0))",
 			"INSERT INTO t1 VALUES (0,NULL,NULL),(-2,0.25,NULL),(-3,NULL,NULL),(3,0.75,1),(-1,NULL,NULL)"},
 		"SELECT COUNT(x1.c1) AS o0 FROM t1 x1 INNER JOIN t1 x2 ON (x2.c0 BETWEEN x1.c1 AND x1.c1)",
-		[][]string{{"n:0"}}},
+		[][]string{{"n:0"}}, false},
 	{idRound,
 		[]string{"CREATE TABLE t0 (c0 INT NOT NULL, c1 DECIMAL(10,2), PRIMARY KEY (c0))",
 			"INSERT INTO t0 VALUES (0,NULL),(1,0.25),(-1,NULL)"},
 		"SELECT x1.c0, x1.c1, x2.c0 FROM t0 x1 INNER JOIN t0 x2 ON (x1.c1 = x2.c0)",
-		nil},
+		nil, false},
 	{idRound,
 		[]string{"CREATE TABLE t0 (c0 INT NOT NULL, c1 INT, c2 DECIMAL(10,2), PRIMARY KEY (c0), KEY k0 (c0))",
 			"INSERT INTO t0 VALUES (4,-3,NULL),(-3,-1,2.50),(3,-2,-1.50),(-1,-3,0.25)"},
 		"SELECT SUM(x1.c1) AS o0 FROM t0 x1 CROSS JOIN t0 x2 WHERE ((x1.c1 IN (NULL,4,-1,3)) AND (NOT (x1.c2 <> x2.c0)))",
-		[][]string{{"N"}}},
+		[][]string{{"N"}}, false},
 	{idOuterSub,
 		[]string{"CREATE TABLE t0 (c0 INT, c1 DECIMAL(10,2), KEY k0 (c0))",
 			"INSERT INTO t0 VALUES (NULL,0.25)",
@@ -84,7 +108,7 @@ var witnesses = []witness{
 			"INSERT INTO t1 VALUES (0,'',NULL,NULL)",
 			"CREATE TABLE t2 (c0 INT, c1 VARCHAR(8), KEY k0 (c0))"},
 		"SELECT x1.c1 AS o0, x3.c3 AS o1 FROM t0 x1 LEFT JOIN t1 x3 ON ((x1.c0 = x3.c0) AND (1 = 0)) WHERE ('A' NOT IN (SELECT x4.c1 FROM t2 x4))",
-		[][]string{{"n:1/4", "N"}}},
+		[][]string{{"n:1/4", "N"}}, false},
 }
 
 // run executes the witness under every configuration and returns the descriptions of the
@@ -101,7 +125,11 @@ func (w witness) run(t *testing.T) (bad []string) {
 		s := f.NewSession("", "", "")
 		s.MustExec(t.Fatalf, w.ddl...)
 		r := s.Exec(w.query)
-		if !r.OK() || !fx.MultisetEqual(fx.NormRows(r.Schema, r.Rows), w.want) {
+		eq := fx.MultisetEqual
+		if w.seq {
+			eq = fx.SeqEqual
+		}
+		if !r.OK() || !eq(fx.NormRows(r.Schema, r.Rows), w.want) {
 			bad = append(bad, name+" -> "+r.String())
 		}
 		f.Close()
